@@ -58,5 +58,7 @@ Inv_C11_Sizes ==
             Len(order[j].kids) > 0 =>
               ByteSize(order[j], lens) =
                 SumSeq([k \in 1 .. Len(order[j].kids) |-> ByteSize(order[j].kids[k], lens)])
+\* beyond the listed properties: the transcribed trickle layout also holds the chunks 1..n in order
+Inv_X_TrickleFlatten == Flatten(RefTrickle(n, w)) = [i \in 1 .. n |-> i]
 Terminates == <>(result # "running")
 =============================================================================
